@@ -2243,3 +2243,143 @@ Proof.
   rewrite Hcl, Hp. replace (len pre + (len t + len tl) - len pre) with (len t + len tl) by lia.
   eexists. split; [reflexivity|]. cbn [ltext lz intag rawtag lerr skip lbuf mv]. repeat split.
 Qed.
+
+(* ---- without delimiters HasTemplate() stays false ------------------------------------------------------------------------ *)
+Ltac dbind H x E := match type of H with rbind ?e _ = _ => destruct e as [x| |] eqn:E; cbn [rbind] in H; try discriminate end.
+
+Lemma wt_flag {S R} (cur : S -> lx) (setc : S -> lx -> S) (body : S -> res (lp S R)) fuel s h rh :
+  loop fuel (with_tmpl no_tmpl cur setc body) (s, h) = Ok rh -> snd rh = h.
+Proof.
+  rewrite loop_with_no_tmpl. destruct (loop fuel body s); cbn [rbind]; try discriminate. intros H. injection H as <-. reflexivity.
+Qed.
+
+Lemma shift_bogus_flag z h r : shift_bogus no_tmpl z h = Ok r -> snd r = h.
+Proof.
+  unfold shift_bogus, with_tmpl_lx. intros H. dbind H rh El. apply wt_flag in El. dbind H t Et. dbind H s Es.
+  injection H as <-. exact El.
+Qed.
+
+Lemma shift_endtag_flag z h r : shift_endtag no_tmpl z h = Ok r -> snd r = h.
+Proof.
+  unfold shift_endtag, with_tmpl_lx. intros H. dbind H rh El. apply wt_flag in El. dbind H t Et. cbn zeta in H. dbind H s Es.
+  destruct (2 <=? sn (fst s)); [|discriminate]. injection H as <-. exact El.
+Qed.
+
+Lemma read_markup_flag z h r : read_markup no_tmpl z h = Ok r -> snd r = h.
+Proof.
+  unfold read_markup, with_tmpl_lx. intros H. dbind H a Ea. destruct a.
+  { dbind H rh El. apply wt_flag in El. cbn zeta in H. dbind H t Et. dbind H s Es. injection H as <-. exact El. }
+  dbind H a2 Ea2. destruct a2.
+  { dbind H rh El. apply wt_flag in El. cbn zeta in H. dbind H t Et. dbind H s Es. injection H as <-. exact El. }
+  dbind H a3 Ea3. destruct a3.
+  { cbn zeta in H. dbind H c0 Ec. dbind H rh El. apply wt_flag in El. dbind H t Et. dbind H s Es. injection H as <-. exact El. }
+  dbind H b Eb. injection H as <-. exact (shift_bogus_flag _ _ _ Eb).
+Qed.
+
+Lemma shift_xml_flag raw z e h r : shift_xml no_tmpl raw z e h = Ok r -> snd r = h.
+Proof.
+  unfold shift_xml, with_tmpl_lx. intros H. dbind H rh El. apply wt_flag in El. destruct rh as [[z'|z'] h1]; cbn [fst snd] in *; subst h1.
+  - dbind H rh2 El2. apply wt_flag in El2. destruct rh2 as [[z''|z''] h2]; cbn [fst snd] in *; subst h2; dbind H s Es; injection H as <-; reflexivity.
+  - dbind H s Es. injection H as <-. reflexivity.
+Qed.
+
+Lemma rawtext_loop_flag raw fuel z h r : loop fuel (rawtext_body no_tmpl raw) (z, h) = Ok r -> snd r = h.
+Proof.
+  intros H. refine (loop_inv (fun s => snd s = h) (fun r => snd r = h) (rawtext_body no_tmpl raw) _ fuel (z, h) r eq_refl H).
+  clear. intros [z has] x Hs Hx. cbn [snd] in Hs. subst has. unfold rawtext_body in Hx. dbind Hx c0 Ec. rewrite skip_tmpl_none in Hx. cbn [rbind] in Hx.
+  destruct (c0 =? 60).
+  - dbind Hx c1 Ec1. destruct (c1 =? 47).
+    + cbn zeta in Hx. dbind Hx z2 Ez. dbind Hx hh Eh. destruct (hh =? raw); [|injection Hx as <-; reflexivity].
+      dbind Hx cc Ecc. destruct (is_tagend cc || eof0 z2 cc); injection Hx as <-; reflexivity.
+    + dbind Hx sc Esc. destruct sc; [|injection Hx as <-; reflexivity].
+      dbind Hx rr Er. unfold script_comment_loop_body in Er. apply wt_flag in Er. destruct rr as [[z'|z'] h']; cbn [snd] in Er; subst h'; injection Hx as <-; reflexivity.
+  - destruct (eof0 z c0); injection Hx as <-; reflexivity.
+Qed.
+
+Lemma shift_rawtext_flag raw z h r : shift_rawtext no_tmpl raw z h = Ok r -> snd r = h.
+Proof.
+  unfold shift_rawtext, with_tmpl_lx. intros H. destruct (raw =? html_hash_Plaintext).
+  - dbind H rh El. apply wt_flag in El. dbind H s Es. injection H as <-. exact El.
+  - dbind H s El. apply rawtext_loop_flag in El. dbind H s2 Es. injection H as <-. exact El.
+Qed.
+
+Lemma attrname_loop_flag fuel s r : loop fuel (attrname_body no_tmpl) s = Ok r -> snd r = snd s.
+Proof.
+  intros H. refine (loop_inv (fun s' => snd s' = snd s) (fun r => snd r = snd s) (attrname_body no_tmpl) _ fuel s r eq_refl H).
+  clear. intros [z has] x Hs Hx. cbn [snd] in Hs. unfold attrname_body in Hx. rewrite tmpl_at_none in Hx. cbn [rbind] in Hx.
+  dbind Hx c0 Ec. dbind Hx b Eb. destruct b; injection Hx as <-; exact Hs.
+Qed.
+
+Lemma attrq_loop_flag q fuel s r : loop fuel (attrq_body no_tmpl q) s = Ok r -> snd r = snd s.
+Proof.
+  intros H. refine (loop_inv (fun s' => snd s' = snd s) (fun r => snd r = snd s) (attrq_body no_tmpl q) _ fuel s r eq_refl H).
+  clear. intros [z has] x Hs Hx. cbn [snd] in Hs. unfold attrq_body in Hx. dbind Hx c0 Ec. rewrite tmpl_at_none in Hx. cbn [rbind] in Hx.
+  destruct (c0 =? q); [injection Hx as <-; exact Hs|]. destruct (eof0 z c0); injection Hx as <-; exact Hs.
+Qed.
+
+Lemma shift_attribute_flag l z r : shift_attribute no_tmpl l z = Ok r -> lhas (snd r) = lhas l.
+Proof.
+  unfold shift_attribute. intros H. cbn zeta in H. rewrite tmpl_rep_guarded_none in H. cbn [rbind fst snd] in H.
+  dbind H r1 E1. apply attrname_loop_flag in E1. cbn [snd] in E1. dbind H z2 Ez2. dbind H c0 Ec0.
+  dbind H r3 E3. destruct r3 as [[z5 has5] av].
+  assert (Hh5 : has5 = lhas l).
+  { destruct (c0 =? 61); [|injection E3 as <- <- <-; exact E1].
+    dbind E3 z3 Ez3. dbind E3 c1 Ec1. rewrite tmpl_at_none in E3. cbn [rbind] in E3.
+    dbind E3 rr Er. dbind E3 v Ev. injection E3 as <- <- <-.
+    destruct ((c1 =? 34) || (c1 =? 39)).
+    - apply attrq_loop_flag in Er. cbn [snd] in Er. congruence.
+    - unfold with_tmpl_lx in Er. apply wt_flag in Er. congruence. }
+  rewrite tmpl_rep_guarded_none in H. cbn [rbind fst snd] in H. dbind H t Et. dbind H s Es. injection H as <-. cbn [snd lhas]. exact Hh5.
+Qed.
+
+Lemma shift_starttag_flag l z r : shift_starttag no_tmpl l z = Ok r -> lhas (snd r) = lhas l.
+Proof.
+  unfold shift_starttag. intros H. dbind H z1 E1. dbind H t Et. cbn zeta in H. dbind H h Eh.
+  destruct (is_raw_hash h); [destruct (is_xml_hash h)|].
+  - dbind H x Ex. destruct x as [[[dv z3] e] hx]. apply shift_xml_flag in Ex. cbn [snd] in Ex. subst hx. destruct e; injection H as <-; reflexivity.
+  - dbind H s Es. injection H as <-. reflexivity.
+  - dbind H s Es. injection H as <-. reflexivity.
+Qed.
+
+Lemma text_loop_not_tmpl fuel z r : loop fuel (text_body no_tmpl) z = Ok r -> snd r <> DTmpl.
+Proof.
+  intros H. refine (loop_inv (fun _ => True) (fun r => snd r <> DTmpl) (text_body no_tmpl) _ fuel z r I H).
+  clear. intros s x _ Hx. unfold text_body in Hx. dbind Hx c0 Ec. rewrite tmpl_at_none in Hx. cbn [rbind] in Hx.
+  destruct (c0 =? 60).
+  - dbind Hx c1 Ec1. dbind Hx ie Eie.
+    destruct (negb ie && negb (is_letter c1) && negb (c1 =? 33) && negb (c1 =? 63)); [injection Hx as <-; exact I|].
+    destruct (0 <? mark s); [injection Hx as <-; cbn [snd]; discriminate|].
+    destruct ie; [injection Hx as <-; cbn [snd]; discriminate|].
+    destruct (is_letter c1); [injection Hx as <-; cbn [snd]; discriminate|].
+    destruct (c1 =? 33); [injection Hx as <-; cbn [snd]; discriminate|].
+    destruct (c1 =? 63); injection Hx as <-; [cbn [snd]; discriminate|exact I].
+  - destruct (eof0 s c0); injection Hx as <-; [cbn [snd]; destruct (0 <? mark s); discriminate|exact I].
+Qed.
+
+Lemma next_content_flag l r : next_content no_tmpl l = Ok r -> lhas (snd r) = lhas l.
+Proof.
+  unfold next_content. intros H. dbind H rd El. pose proof (text_loop_not_tmpl _ _ _ El) as Hnt. destruct rd as [z dd]. cbn [snd] in Hnt.
+  destruct dd; try congruence.
+  - dbind H s Es. injection H as <-. reflexivity.
+  - cbn zeta in H. dbind H c0 Ec. destruct (negb (is_letter c0)).
+    + dbind H b Eb. injection H as <-. cbn [snd lhas]. exact (shift_bogus_flag _ _ _ Eb).
+    + dbind H b Eb. injection H as <-. cbn [snd lhas]. exact (shift_endtag_flag _ _ _ Eb).
+  - rewrite (shift_starttag_flag _ _ _ H). reflexivity.
+  - dbind H m Em. destruct m as [[[[ty tk] tx] z'] has]. injection H as <-. cbn [snd lhas]. exact (read_markup_flag _ _ _ Em).
+  - dbind H b Eb. injection H as <-. cbn [snd lhas]. exact (shift_bogus_flag _ _ _ Eb).
+  - injection H as <-. reflexivity.
+Qed.
+
+Lemma next_no_tmpl_has l r : next no_tmpl l = Ok r -> lhas (snd r) = false.
+Proof.
+  unfold next. cbn [lz rawtag intag lerr ltext lattr lhas]. intros H. destruct (intag l).
+  - unfold next_intag in H. cbn [lz rawtag intag lerr ltext lattr lhas] in H. dbind H z1 E1. dbind H c0 Ec.
+    destruct (eof0 z1 c0); [injection H as <-; reflexivity|].
+    dbind H ia Eia. destruct ia.
+    + dbind H a Ea. injection H as <-. cbn [snd]. rewrite (shift_attribute_flag _ _ _ Ea). reflexivity.
+    + dbind H s Es. injection H as <-. reflexivity.
+  - destruct (negb (rawtag l =? 0)).
+    + dbind H rr Er. destruct rr as [[v z] has]. apply shift_rawtext_flag in Er. cbn [snd] in Er. subst has.
+      destruct (0 <? sn v); [injection H as <-; reflexivity|]. rewrite (next_content_flag _ _ H). reflexivity.
+    + rewrite (next_content_flag _ _ H). reflexivity.
+Qed.
